@@ -1145,3 +1145,85 @@ Proof.
   - exact He.
   - destruct H as [H|H]; [contradiction | exact H].
 Qed.
+
+(* ------------------------------------------------------------------ extrusion over the cells of the line mesh *)
+Lemma searchsorted_In (L : list nat) v : StronglySorted lt L -> In v L ->
+  searchsorted L v < length L /\ nth (searchsorted L v) L 0 = v.
+Proof.
+  intros Hs Hin. destruct (In_nth _ _ 0 Hin) as [m [Hm He]]. rewrite <- He.
+  rewrite (searchsorted_sorted L m Hs Hm). split; [exact Hm | reflexivity].
+Qed.
+
+(* a level i carries a layer iff some element of the line mesh spans exactly the consecutive levels x_i, x_{i+1} *)
+Theorem line_iscell_spec (pz t0 t1 : list nat) (i : nat) :
+  length t0 = length t1 -> i < length (line_levels pz t0 t1) ->
+  (nth i (line_iscell pz t0 t1) false = true <->
+   exists e, e < length t0 /\
+     let a := nth (nth e t0 0) pz 0 in let b := nth (nth e t1 0) pz 0 in
+     nth i (line_levels pz t0 t1) 0 = Nat.min a b /\ nth (i + 1) (line_levels pz t0 t1) 0 = Nat.max a b /\
+     i + 1 < length (line_levels pz t0 t1)).
+Proof.
+  intros Hlen Hi. set (x := line_levels pz t0 t1) in *.
+  assert (Hs : StronglySorted lt x) by apply unique_nat_sorted.
+  assert (Hin : forall e, e < length t0 -> In (nth (nth e t0 0) pz 0) x /\ In (nth (nth e t1 0) pz 0) x).
+  { intros e He. unfold x, line_levels. rewrite !unique_nat_In. split; apply in_map_iff.
+    - exists (nth e t0 0). split; [reflexivity | apply in_or_app; left; apply nth_In; exact He].
+    - exists (nth e t1 0). split; [reflexivity | apply in_or_app; right; apply nth_In; lia]. }
+  unfold line_iscell. fold x.
+  rewrite (map_nth_in _ (seq 0 (length x)) i 0 false) by (rewrite seq_length; exact Hi).
+  rewrite seq_nth by exact Hi. simpl Nat.add. rewrite existsb_exists. split.
+  - intros [[u v] [Huv Hb]]. destruct (In_nth _ _ (0, 0) Huv) as [e [He Hnth]].
+    rewrite combine_length in He. rewrite combine_nth in Hnth by exact Hlen. injection Hnth as Hu Hv. subst u v.
+    simpl in Hb. apply andb_true_iff in Hb. destruct Hb as [H1 H2]. apply Nat.eqb_eq in H1, H2.
+    assert (He' : e < length t0) by lia. destruct (Hin e He') as [Ha Hb].
+    set (a := nth (nth e t0 0) pz 0) in *. set (b := nth (nth e t1 0) pz 0) in *.
+    assert (Hmin : In (Nat.min a b) x) by (destruct (Nat.min_spec a b) as [[_ ->]|[_ ->]]; assumption).
+    assert (Hmax : In (Nat.max a b) x) by (destruct (Nat.max_spec a b) as [[_ ->]|[_ ->]]; assumption).
+    destruct (searchsorted_In x _ Hs Hmin) as [_ E1]. destruct (searchsorted_In x _ Hs Hmax) as [L2 E2].
+    exists e. split; [exact He'|]. rewrite H1 in E1. rewrite H2 in E2, L2. repeat split; assumption.
+  - intros [e [He [E1 [E2 L2]]]]. exists (nth e t0 0, nth e t1 0). split.
+    + rewrite <- (combine_nth t0 t1 e 0 0 Hlen). apply nth_In. rewrite combine_length. lia.
+    + simpl. rewrite <- E1, <- E2.
+      rewrite (searchsorted_sorted x i Hs Hi), (searchsorted_sorted x (i + 1) Hs L2). rewrite !Nat.eqb_refl. reflexivity.
+Qed.
+
+(* extrude_spec over the cells of the line mesh: the l-th layer (l-th level i with iscell[i]) consists of the prisms
+   k + l*nt, whose first rows are triangle k on level i and whose last rows are triangle k on level i+1 *)
+Theorem extrude_cells_t_spec (nv nt : nat) (cells : list nat) (t : mat nat) (i l k : nat) :
+  Forall (fun row => length row = nt) t -> i < 2 * length t -> l < length cells -> k < nt ->
+  nth (k + l * nt) (nth i (extrude_cells_t nv cells t) []) 0
+  = if i <? length t then nth k (nth i t []) 0 + nth l cells 0 * nv
+    else nth k (nth (i - length t) t []) 0 + nv + nth l cells 0 * nv.
+Proof.
+  intros Ht Hi Hl Hk. unfold extrude_cells_t.
+  rewrite (map_nth_in _ (seq 0 (2 * length t)) i 0) by (rewrite seq_length; exact Hi).
+  rewrite seq_nth by exact Hi. simpl Nat.add.
+  set (B := fun l0 => map (map (fun v => v + l0 * nv)) t ++ map (map (fun v => v + nv + l0 * nv)) t).
+  assert (Hrow : forall l0, length (nth i (B l0) []) = nt).
+  { intros l0. unfold B. rewrite Forall_forall in Ht. destruct (Nat.lt_ge_cases i (length t)) as [Hlt|Hge].
+    - rewrite app_nth1 by (rewrite map_length; exact Hlt).
+      rewrite (map_nth_in _ t i []) by exact Hlt. rewrite map_length. apply Ht, nth_In. exact Hlt.
+    - rewrite app_nth2 by (rewrite map_length; exact Hge). rewrite map_length.
+      rewrite (map_nth_in _ t (i - length t) []) by lia. rewrite map_length. apply Ht, nth_In. lia. }
+  rewrite map_map. rewrite (nth_concat_blocks 0 nt).
+  - rewrite (map_nth_in _ cells l 0) by exact Hl. fold (B (nth l cells 0)). unfold B.
+    destruct (Nat.ltb_spec i (length t)) as [Hlt|Hge].
+    + rewrite app_nth1 by (rewrite map_length; exact Hlt).
+      rewrite (map_nth_in _ t i []) by exact Hlt.
+      rewrite Forall_forall in Ht.
+      rewrite (map_nth_in _ (nth i t []) k 0) by (rewrite (Ht (nth i t [])) by (apply nth_In; exact Hlt); exact Hk).
+      reflexivity.
+    + rewrite app_nth2 by (rewrite map_length; exact Hge). rewrite map_length.
+      rewrite (map_nth_in _ t (i - length t) []) by lia.
+      rewrite Forall_forall in Ht.
+      rewrite (map_nth_in _ (nth (i - length t) t []) k 0)
+        by (rewrite (Ht (nth (i - length t) t [])) by (apply nth_In; lia); exact Hk).
+      reflexivity.
+  - apply Forall_forall. intros b Hb. apply in_map_iff in Hb. destruct Hb as [l0 [<- _]]. apply Hrow.
+  - rewrite map_length. exact Hl.
+  - exact Hk.
+Qed.
+
+Lemma cell_levels_spec (iscell : list bool) i :
+  In i (cell_levels iscell) <-> i < length iscell /\ nth i iscell false = true.
+Proof. unfold cell_levels. rewrite filter_In, in_seq. intuition lia. Qed.
